@@ -357,7 +357,8 @@ pub fn obs_digest_main(seed: u64, n: u64) -> ! {
 }
 
 fn run_digest(profile: &str, seed: u64, n: u64) -> Result<Vec<String>, String> {
-    let exe = format!("{}/{}/vcheck", target_dir(), profile);
+    // "noutils" = the `fast` profile built without the library's optional `utils` feature (own target dir)
+    let exe = if profile == "noutils" { format!("{}/noutils/fast/vcheck", target_dir()) } else { format!("{}/{}/vcheck", target_dir(), profile) };
     let out = std::process::Command::new(&exe).arg("--obs-digest").arg(seed.to_string()).arg(n.to_string()).output().map_err(|e| format!("cannot run {}: {}", exe, e))?;
     if !out.status.success() {
         return Err(format!("{} exited with {:?}", exe, out.status));
@@ -366,7 +367,7 @@ fn run_digest(profile: &str, seed: u64, n: u64) -> Result<Vec<String>, String> {
 }
 
 pub fn run(run: &mut Run) {
-    run.rule = "cases: loadable files (well-formed, plus hostile files that were accepted) x a generated list of API calls (every accessor kind with in-range arguments) evaluated (a) in list order, in a seeded permuted order and on a second pass, (b) concurrently on a shared &AsepriteFile from T in 2..16 threads (barrier start, own permutation per thread), (c) on a second load of the same bytes (whole-API observation equal); (d) a seeded corpus is observed by three builds of the library (opt-level 3 with overflow checks + debug assertions, opt-level 3 without, opt-level 0 with) and the digests (including tile lookups at extreme coordinates) must be identical; (e) Send + Sync of AsepriteFile and its reference types is instantiated in a separate crate whose Send/Sync compile error is the violation. non-trivial: call list with >= 8 distinct calls including an image-producing call, T >= 2; distinct by file hash and schedule".into();
+    run.rule = "cases: loadable files (well-formed, plus hostile files that were accepted) x a generated list of API calls (every accessor kind with in-range arguments) evaluated (a) in list order, in a seeded permuted order and on a second pass, (b) concurrently on a shared &AsepriteFile from T in 2..16 threads (barrier start, own permutation per thread), (c) on a second load of the same bytes (whole-API observation equal); (d) a seeded corpus is observed by four builds of the library (opt-level 3 with overflow checks + debug assertions, opt-level 3 without, opt-level 0 with, and opt-level 3 without the optional `utils` feature) and the digests (including tile lookups at extreme coordinates) must be identical; (e) Send + Sync of AsepriteFile and its reference types is instantiated in a separate crate whose Send/Sync compile error is the violation. non-trivial: call list with >= 8 distinct calls including an image-producing call, T >= 2; distinct by file hash and schedule".into();
     run.assumptions = vec!["the harness does not control the thread schedule; (e) is decided by the compiler".into(), "Debug output is compared by length only (hash-map order is documented as arbitrary)".into()];
     // (e)
     match std::env::var("C16_TRAITS").unwrap_or_default().as_str() {
@@ -389,7 +390,7 @@ pub fn run(run: &mut Run) {
     let n = if run.thorough() { 6000 } else { 500 };
     let seed = run.seed;
     let mut digests = vec![];
-    for p in ["checked", "fast", "dev0"] {
+    for p in ["checked", "fast", "dev0", "noutils"] {
         match run_digest(p, seed, n) {
             Ok(d) => digests.push((p, d)),
             Err(e) => {
@@ -397,7 +398,7 @@ pub fn run(run: &mut Run) {
             }
         }
     }
-    if digests.len() == 3 {
+    if digests.len() == 4 {
         let mut cmp = 0u64;
         let mut loaded = 0u64;
         for i in 0..digests[0].1.len() {
